@@ -36,6 +36,21 @@
 #ifndef _h_MATRIXSSLLIB
 # define _h_MATRIXSSLLIB
 
+#ifdef MATRIXSSL_VERIF
+/* Verification instrumentation (off unless -DMATRIXSSL_VERIF): one observer
+   callback, NULL unless a test driver installs it. */
+typedef void (*matrixVerifHook_t)(int ev, void *ssl, long a, long b,
+        void *p, long n);
+extern matrixVerifHook_t matrixVerifHook;
+# define MATRIX_VERIF_EV(ev, ssl, a, b, p, n) \
+    do { if (matrixVerifHook) { matrixVerifHook((ev), (void *) (ssl), (long) (a), (long) (b), (void *) (p), (long) (n)); } } while (0)
+# define MXV_HS_GATE    1 /* handshake message type a passed the state gate */
+# define MXV_HS_ACCEPT  2 /* handshake message type a fully processed, rc b */
+# define MXV_REC_OK     3 /* record type a, plaintext len n passed record protection */
+# define MXV_SEAL       4 /* about to protect record type a (hs msg b), plaintext p,n */
+# define MXV_CACHE      5 /* session cache / ticket operation a, result b */
+#endif /* MATRIXSSL_VERIF */
+
 # ifdef __cplusplus
 extern "C" {
 # endif
